@@ -1,5 +1,7 @@
 import FcpptModel.Prelude.Proto
 import FcpptModel.Spec.C14
+import FcpptModel.Model.C14.Member
+import FcpptModel.Model.C14.Neighbour
 /-!
 Driver for C14.  Scalars are integers with `|e| ≤ 1000` (the harness asserts the same bound so that nothing
 overflows `long`); vectors are `a,b,c`; matrices are given as their row-major element list and printed
@@ -23,6 +25,24 @@ buffer, `r` (vectors only) a row view of a static 3×n matrix.
 * `builders x y z a b d` — `translation`, `scaling` (both overloads), `identity` 1…4, `vector::init`, `matrix::init`, `matrix::row` + row constructor
 * `bits n`               — `bit_strings<long, n>`
 * `det0`                 — determinant of the 0×0 matrix
+* `nb LR n a b axis`      — vector `a` (mode L ∈ s,r,b) and dim `b` (mode R ∈ s,b): `vector ∘ dim` for `+ - * /`, `dim::contents`,
+                           `is_quadratic`, `to_dim`, `to_vector`, `vector::unit(axis)`
+* `md LR n a b k`        — `vector::ceil_div_signed`, `math::ceil_div_signed`; `vector::mod` (both overloads), `math::mod` on the absolute values (unsigned)
+* `tp M V A v`           — `transform_point`, `transform_direction` of the 4×4 matrix `A` and the 3-vector `v`
+* `inf M r c A`          — `infinity_norm`
+* `mem F R C va vb ma mb (T op X)+` — member operators on objects in one memory (F ∈ {v,d}).  The world: static vectors (dims) `A`, `B`
+                           of dimension C (values `va`, `vb`), static R×C matrices `M`, `P` (values `ma`, `mb`, row-major), a buffer
+                           `[9] ++ ma ++ mb ++ [8]`.  Vector-like objects: `A`, `B`, `M<i>` / `P<i>` (row view `get_unsafe(i)` of the
+                           non-const matrix), `N<i>` (row view of `M` as a const matrix), `U<o>` (mutable buffer view at offset `o`),
+                           `C<o>` (read-only buffer view), `Q<o>.<i>` (row `i` of the matrix that views the buffer at `o`).  Matrix objects:
+                           `M`, `P`, `V<o>` (mutable buffer view), `W<o>` (read-only).  Statements: `T add X` (`+=`), `T sub X` (`-=`),
+                           `T mul X` (`*=`, component-wise), `T asg X` (`=`: copy assignment for equal storage types, otherwise the converting
+                           `operator=`), `T ctor X` (`T = static_<…>(X)`: converting constructor, then assignment), `T smul k<int>` / `T smul @X.<i>` (`*=` with an independent value / with a reference to element
+                           `i` of `X`), `T set <i>:<int>` (`T.get_unsafe(i) = int`).  Result: all cells of the world, the values seen through the
+                           target after every statement, and whether the operator returned the target.
+* `mems F R C E (T op X)+` — digest of the `mem` results over `va = a`, `vb = b`, `ma`, `mb` derived from `a`, `b`, for every
+                           `a ∈ {-1,0,1,2}^C` and every `b ∈ {-1,0,1,2}^C` (`E = f`, or `C ≤ 2`) / `b ∈ {-1,2}^C` (`E = q`) /
+                           the two alternating `b ∈ {(-1,2,-1,…), (2,-1,2,…)}` (`E = s`)
 -/
 namespace Fcppt.C14.Drv
 open Fcppt.Proto
@@ -229,8 +249,345 @@ def delShape (r c : Nat) : Bool := r = c || [23, 32, 34, 43].contains (r * 10 + 
 def delViews (r c : Nat) : Bool := [33, 34].contains (r * 10 + c)
 def pairViews (n : Nat) : Bool := n = 2 || n = 3
 
-def handle (toks : List String) : String :=
+
+/-! ## member operators: scenarios over one memory (`mem`, `mems`) -/
+
+/-- the C++ storage type of a vector-like operand: static, row view of a non-const static matrix, row view of a const static
+    matrix, mutable buffer view, read-only buffer view, row view of a (non-const) buffer-view matrix -/
+inductive VKind where | st | rv | rc | bv | bc | qv
+  deriving DecidableEq
+/-- static matrix, mutable buffer-view matrix, read-only buffer-view matrix -/
+inductive MKind where | sm | vm | cm
+  deriving DecidableEq
+
+def VKind.mutable : VKind → Bool
+  | .rc => false | .bc => false | _ => true
+def MKind.mutable : MKind → Bool
+  | .cm => false | _ => true
+
+def mkStaticRef (len n base : Nat) : Option (Ref len n) := if h : base + n ≤ len then some (.static base h) else none
+def mkBufferRef (len n ptr : Nat) : Option (Ref len n) := if h : ptr + n ≤ len then some (.buffer ptr h) else none
+
+/-- world layout: `A` at 0, `B` at C, `M` at 2C, `P` at 2C + RC, the buffer (2RC + 2 cells) at 2C + 2RC -/
+def memLen (R C : Nat) : Nat := 2 * C + 4 * (R * C) + 2
+def offM (_R C : Nat) : Nat := 2 * C
+def offP (R C : Nat) : Nat := 2 * C + R * C
+def offU (R C : Nat) : Nat := 2 * C + 2 * (R * C)
+
+def splitDesc (tok : String) : Option (Char × String) :=
+  match tok.toList with
+  | c :: rest => some (c, String.ofList rest)
+  | [] => none
+
+def rowOf {len R C : Nat} (m : Option (Ref len (R * C))) (i : Nat) (k : VKind) : Option (Ref len C × VKind) :=
+  match m with
+  | some s =>
+    match (MatRef.mk s : MatRef len R C).getUnsafe i with
+    | .ok r => some (r, k)
+    | .error _ => none
+  | none => none
+
+/-- a matrix object of the world -/
+def matObj (isVec : Bool) (R C : Nat) (tok : String) : Option (MatRef (memLen R C) R C × MKind) :=
+  let len := memLen R C
+  if !isVec then none else
+  match splitDesc tok with
+  | some ('M', "") => (mkStaticRef len (R * C) (offM R C)).map fun s => (⟨s⟩, .sm)
+  | some ('P', "") => (mkStaticRef len (R * C) (offP R C)).map fun s => (⟨s⟩, .sm)
+  | some ('V', rest) => match rest.toNat? with
+    | some o => (mkBufferRef len (R * C) (offU R C + o)).map fun s => (⟨s⟩, .vm)
+    | none => none
+  | some ('W', rest) => match rest.toNat? with
+    | some o => (mkBufferRef len (R * C) (offU R C + o)).map fun s => (⟨s⟩, .cm)
+    | none => none
+  | _ => none
+
+/-- a vector-like (dim-like) object of the world -/
+def vecObj (isVec : Bool) (R C : Nat) (tok : String) : Option (Ref (memLen R C) C × VKind) :=
+  let len := memLen R C
+  match splitDesc tok with
+  | some ('A', "") => (mkStaticRef len C 0).map fun r => (r, .st)
+  | some ('B', "") => (mkStaticRef len C C).map fun r => (r, .st)
+  | some ('U', rest) => match rest.toNat? with
+    | some o => (mkBufferRef len C (offU R C + o)).map fun r => (r, .bv)
+    | none => none
+  | some ('C', rest) => match rest.toNat? with
+    | some o => (mkBufferRef len C (offU R C + o)).map fun r => (r, .bc)
+    | none => none
+  | some ('M', rest) => if !isVec then none else match rest.toNat? with
+    | some i => rowOf (R := R) (mkStaticRef len (R * C) (offM R C)) i .rv
+    | none => none
+  | some ('N', rest) => if !isVec then none else match rest.toNat? with
+    | some i => rowOf (R := R) (mkStaticRef len (R * C) (offM R C)) i .rc
+    | none => none
+  | some ('P', rest) => if !isVec then none else match rest.toNat? with
+    | some i => rowOf (R := R) (mkStaticRef len (R * C) (offP R C)) i .rv
+    | none => none
+  | some ('Q', rest) => if !isVec then none else match rest.splitOn "." with
+    | [o, i] => match o.toNat?, i.toNat? with
+      | some o, some i => rowOf (R := R) (mkBufferRef len (R * C) (offU R C + o)) i .qv
+      | _, _ => none
+    | _ => none
+  | _ => none
+
+/-- `k<int>`: an independent value; `@X.<i>`: a reference to element `i` of the object `X` (`X.get_unsafe(i)`, for a matrix
+    `X.get_unsafe(i / C).get_unsafe(i % C)`); `none` = malformed, `some none` = index outside the precondition -/
+def scalarArg (isVec : Bool) (R C : Nat) (tok : String) : Option (Option (Scalar (memLen R C))) :=
+  match splitDesc tok with
+  | some ('k', rest) => (parseScalar rest).map fun k => some (Scalar.value k)
+  | some ('@', rest) =>
+    let parts := rest.splitOn "."
+    match parts.getLast?, parts.dropLast with
+    | some i, d :: ds =>
+      let desc := ".".intercalate (d :: ds)
+      match i.toNat? with
+      | some i =>
+        match vecObj isVec R C desc with
+        | some (r, _) => some (match r.getUnsafe i with | .ok a => some (Scalar.cell a) | .error _ => none)
+        | none =>
+          match matObj isVec R C desc with
+          | some (m, _) =>
+            let a : M (Fin (memLen R C)) := do
+              let row ← m.getUnsafe (i / C)
+              row.getUnsafe (i % C)
+            some (match a with | .ok a => some (Scalar.cell a) | .error _ => none)
+          | none => none
+      | none => none
+    | _, _ => none
+  | _ => none
+
+def refVals {len n : Nat} (r : Ref len n) (mem : Mem len) : List Int := (r.load mem).toList
+
+/-- one statement on vector-like objects: new memory and the values seen through the target afterwards (`none`: a precondition
+    of `get_unsafe` does not hold, nothing is executed) -/
+def execVec (isVec : Bool) (R C : Nat) (mem : Mem (memLen R C)) (t op x : String) : Option (Mem (memLen R C) × Option (List Int)) :=
+  match vecObj isVec R C t with
+  | some (tr, tk) =>
+    if !tk.mutable then none
+    else if op = "smul" then
+      match scalarArg isVec R C x with
+      | some (some s) => let mem' := (Stmt.smul tr s).exec mem; some (mem', some (refVals tr mem'))
+      | some none => some (mem, none)
+      | none => none
+    else if op = "set" then
+      match x.splitOn ":" with
+      | [i, k] =>
+        match i.toNat?, parseScalar k with
+        | some i, some k =>
+          if h : i < C then let mem' := (Stmt.set tr ⟨i, h⟩ k).exec mem; some (mem', some (refVals tr mem'))
+          else match tr.getUnsafe i with        -- precondition of get_unsafe violated: `oob`, nothing is executed
+            | .ok _ => none
+            | .error _ => some (mem, none)
+        | _, _ => none
+      | _ => none
+    else
+      match vecObj isVec R C x with
+      | some (xr, xk) =>
+        if op = "add" then let mem' := (Stmt.add tr xr).exec mem; some (mem', some (refVals tr mem'))
+        else if op = "sub" then let mem' := (Stmt.sub tr xr).exec mem; some (mem', some (refVals tr mem'))
+        else if op = "mul" then let mem' := (Stmt.mul tr xr).exec mem; some (mem', some (refVals tr mem'))
+        else if op = "asg" then
+          if tk = xk then
+            let (mem', tr') := copyAssign tr xr mem
+            some (mem', some (refVals tr' mem'))
+          else let mem' := (Stmt.asg tr xr).exec mem; some (mem', some (refVals tr mem'))
+        else if op = "ctor" then let mem' := (Stmt.ctor tr xr).exec mem; some (mem', some (refVals tr mem'))
+        else none
+      | none => none
+  | none => none
+
+def execMat (R C : Nat) (mem : Mem (memLen R C)) (t op x : String) : Option (Mem (memLen R C) × Option (List Int)) :=
+  match matObj true R C t with
+  | some (tm, tk) =>
+    let tr := tm.s
+    if !tk.mutable then none
+    else if op = "smul" then
+      match scalarArg true R C x with
+      | some (some s) => let mem' := (Stmt.smul tr s).exec mem; some (mem', some (refVals tr mem'))
+      | some none => some (mem, none)
+      | none => none
+    else if op = "set" then
+      match x.splitOn ":" with
+      | [i, k] =>
+        match i.toNat?, parseScalar k with
+        | some i, some k =>
+          let a : M (Fin (memLen R C)) := do
+            let row ← tm.getUnsafe (i / C)
+            row.getUnsafe (i % C)
+          match a with
+          | .ok a => let mem' := setElem a k mem; some (mem', some (refVals tr mem'))
+          | .error _ => some (mem, none)
+        | _, _ => none
+      | _ => none
+    else
+      match matObj true R C x with
+      | some (xm, xk) =>
+        let xr := xm.s
+        if op = "add" then let mem' := (Stmt.add tr xr).exec mem; some (mem', some (refVals tr mem'))
+        else if op = "sub" then let mem' := (Stmt.sub tr xr).exec mem; some (mem', some (refVals tr mem'))
+        else if op = "asg" then
+          if tk = xk then
+            let (mem', tr') := copyAssign tr xr mem
+            some (mem', some (refVals tr' mem'))
+          else let mem' := (Stmt.asg tr xr).exec mem; some (mem', some (refVals tr mem'))
+        else if op = "ctor" then let mem' := (Stmt.ctor tr xr).exec mem; some (mem', some (refVals tr mem'))
+        else none
+      | none => none
+  | none => none
+
+/-- the statements of a line, three tokens each -/
+def stmtsOf : List String → Option (List (String × String × String))
+  | [] => some []
+  | t :: op :: x :: rest => (stmtsOf rest).map fun l => (t, op, x) :: l
+  | _ => none
+
+def isMatTarget (t : String) : Bool := t = "M" || t = "P" || t.startsWith "V"
+
+def runStmts (isVec : Bool) (R C : Nat) (mem : Mem (memLen R C)) :
+    List (String × String × String) → Option (Mem (memLen R C) × List (Option (List Int)))
+  | [] => some (mem, [])
+  | (t, op, x) :: rest =>
+    let r := if isMatTarget t then (if isVec then execMat R C mem t op x else none) else execVec isVec R C mem t op x
+    match r with
+    | some (mem', tv) => (runStmts isVec R C mem' rest).map fun (m, tvs) => (m, tv :: tvs)
+    | none => none
+
+def memInit (R C : Nat) (va vb ma mb : List Int) : Option (Mem (memLen R C)) :=
+  mkVector (memLen R C) (va ++ vb ++ ma ++ mb ++ [9] ++ ma ++ mb ++ [8])
+
+/-- which worlds the harness instantiates -/
+def memShape (isVec : Bool) (R C : Nat) : Bool :=
+  if isVec then [31, 32, 33, 34, 22, 23, 44, 11].contains (R * 10 + C) else [31, 32, 33, 34].contains (R * 10 + C)
+
+def memRun (isVec : Bool) (R C : Nat) (va vb ma mb : List Int) (stmts : List (String × String × String)) :
+    Option (Mem (memLen R C) × List (Option (List Int))) :=
+  match memInit R C va vb ma mb with
+  | some mem => runStmts isVec R C mem stmts
+  | none => none
+
+def memLineOf (R C : Nat) (mem : Mem (memLen R C)) (tvs : List (Option (List Int))) : String :=
+  let cells := mem.toList
+  let K := R * C
+  let seg (a n : Nat) : String := showL ((cells.drop a).take n)
+  let w := "/".intercalate [seg 0 C, seg C C, seg (2 * C) K, seg (2 * C + K) K, seg (2 * C + 2 * K) (2 * K + 2)]
+  let t := "|".intercalate (tvs.map fun tv => match tv with | some l => showL l | none => "oob")
+  s!"w={w} t={t} r={String.ofList (tvs.map fun _ => '1')}"
+
+def memMix (h : UInt64) {len : Nat} (mem : Mem len) (tvs : List (Option (List Int))) : UInt64 :=
+  let h := mem.toList.foldl (fun h e => mix h (u64 e)) h
+  tvs.foldl (fun h tv =>
+    match tv with
+    | some l => mix (l.foldl (fun h e => mix h (u64 e)) h) 1
+    | none => mix (mix h (u64 (-7777))) 1) h
+
+def enumA (C idx : Nat) : List Int := (List.range C).map fun j => Int.ofNat ((idx / 4 ^ j) % 4) - 1
+def enumBq (C idx : Nat) : List Int := (List.range C).map fun j => if (idx / 2 ^ j) % 2 = 1 then 2 else -1
+
+/-- the matrices of an enumerated scenario: rows `a`, `b`, `a + 2b + 3`, `2a - b - 5` resp. `10 (i + 1) + j + b_j - a_j` -/
+def deriveMa (R : Nat) (a b : List Int) : List Int :=
+  ([a, b, List.zipWith (fun x y => x + 2 * y + 3) a b, List.zipWith (fun x y => 2 * x - y - 5) a b].take R).flatten
+def deriveMb (R : Nat) (a b : List Int) : List Int :=
+  ((List.range R).map fun i => (List.zip a b).mapIdx fun j (xy : Int × Int) => 10 * (Int.ofNat i + 1) + Int.ofNat j + xy.2 - xy.1).flatten
+
+/-- `E = s`: `b` alternates `-1, 2, -1, …` (idx 0) or `2, -1, 2, …` (idx 1) -/
+def enumBs (C idx : Nat) : List Int := (List.range C).map fun j => if (j + idx) % 2 = 1 then 2 else -1
+
+def memsDigest (isVec : Bool) (R C : Nat) (e : String) (stmts : List (String × String × String)) : String :=
+  let allB := e = "f" || C ≤ 2
+  let nb := if allB then 4 ^ C else if e = "q" then 2 ^ C else 2
+  let r := (List.range (4 ^ C)).foldl (fun (acc : Option UInt64) ia =>
+    (List.range nb).foldl (fun (acc : Option UInt64) ib =>
+      match acc with
+      | none => none
+      | some h =>
+        let a := enumA C ia
+        let b := if allB then enumA C ib else if e = "q" then enumBq C ib else enumBs C ib
+        match memRun isVec R C a b (deriveMa R a b) (deriveMb R a b) stmts with
+        | some (mem, tvs) => some (memMix h mem tvs)
+        | none => none) acc) (some fnvInit)
+  match r with
+  | some h => "D " ++ hex64 h
+  | none => "bad-op"
+
+def memHandle (toks : List String) : String :=
   match toks with
+  | "mem" :: fam :: r :: c :: va :: vb :: ma :: mb :: rest =>
+    match parseDim 1 4 r, parseDim 1 4 c, stmtsOf rest with
+    | some R, some C, some stmts =>
+      if (fam = "v" ∨ fam = "d") ∧ memShape (fam = "v") R C ∧ stmts ≠ [] ∧ stmts.length ≤ 6 then
+        match parseInts va, parseInts vb, parseInts ma, parseInts mb with
+        | some va, some vb, some ma, some mb =>
+          if va.length = C ∧ vb.length = C ∧ ma.length = R * C ∧ mb.length = R * C then
+            match memRun (fam = "v") R C va vb ma mb stmts with
+            | some (mem, tvs) => memLineOf R C mem tvs
+            | none => "bad-op"
+          else "bad-op"
+        | _, _, _, _ => "bad-op"
+      else "bad-op"
+    | _, _, _ => "bad-op"
+  | "mems" :: fam :: r :: c :: e :: rest =>
+    match parseDim 1 4 r, parseDim 1 4 c, stmtsOf rest with
+    | some R, some C, some stmts =>
+      if (fam = "v" ∨ fam = "d") ∧ memShape (fam = "v") R C ∧ (e = "f" ∨ e = "q" ∨ e = "s") ∧ stmts ≠ [] ∧ stmts.length ≤ 6 then
+        memsDigest (fam = "v") R C e stmts
+      else "bad-op"
+    | _, _, _ => "bad-op"
+  | _ => "bad-op"
+
+def nbLine {n : Nat} (a : Vec (n + 1)) (b : Vec (n + 1)) (axis : Nat) : String :=
+  s!"vd+={showV (addD a b)} vd-={showV (subD a b)} vd*={showV (mulD a b)} vd/={showO showV (divD a b)} cont={contents b} " ++
+  s!"quad={b01 (isQuadratic b)} tod={showV (toDifferent a)} tov={showV (toDifferent b)} unit={showV (unit (n + 1) axis)}"
+
+/-- `md LR n a b k`: `vector::ceil_div_signed(a, k)`, the scalar `ceil_div_signed` of the first components, and — on the absolute
+    values in static storage, because `math::mod` only instantiates for unsigned (and floating-point) types —
+    `vector::mod(|a|, |k|)`, `vector::mod(|a|, |b|)`, `math::mod(|a0|, |b0|)` -/
+def mdLine {n : Nat} (a b : Vec (n + 1)) (k : Int) : String :=
+  let ua : Vec (n + 1) := init fun i => (a.get i).natAbs
+  let ub : Vec (n + 1) := init fun i => (b.get i).natAbs
+  let uk : Int := k.natAbs
+  s!"ms={showO showV (modS ua uk)} mv={showO showV (modV ua ub)} cd={showO showV (ceilDivSignedV a k)} " ++
+  s!"m0={showO toString (mod (ua.get 0) (ub.get 0))} c0={showO toString (ceilDivSigned (a.get 0) (b.get 0))}"
+
+def handle1 (toks : List String) : String :=
+  match toks with
+  | ["nb", lr, n, a, b, axis] =>
+    match modeChars lr, parseDim 1 4 n, parseInts a, parseInts b, axis.toNat? with
+    | some (ml, mr), some (n + 1), some a, some b, some axis =>
+      if (ml = 's' || ml = 'r' || ml = 'b') && (mr = 's' || mr = 'b') && axis ≤ n + 1 then
+        match mkVec ml (n + 1) a, mkVec mr (n + 1) b with
+        | some va, some vb => nbLine va vb axis
+        | _, _ => "bad-op"
+      else "bad-op"
+    | _, _, _, _, _ => "bad-op"
+  | ["md", lr, n, a, b, k] =>
+    match modeChars lr, parseDim 1 4 n, parseInts a, parseInts b, parseScalar k with
+    | some (ml, mr), some (n + 1), some a, some b, some k =>
+      if (ml = 's' || ml = 'r' || ml = 'b') && (mr = 's' || mr = 'r' || mr = 'b') then
+        match mkVec ml (n + 1) a, mkVec mr (n + 1) b with
+        | some va, some vb => mdLine va vb k
+        | _, _ => "bad-op"
+      else "bad-op"
+    | _, _, _, _, _ => "bad-op"
+  | ["tp", mm, vm, a, v] =>
+    match modeChar mm, modeChar vm, parseInts a, parseInts v with
+    | some mm, some vm, some a, some v =>
+      if isMatMode mm && (vm = 's' || vm = 'r' || vm = 'b') then
+        match mkMat mm 4 4 a, mkVec vm 3 v with
+        | some ma, some vv => s!"tp={showV (ma.transformPoint vv)} td={showV (ma.transformDirection vv)}"
+        | _, _ => "bad-op"
+      else "bad-op"
+    | _, _, _, _ => "bad-op"
+  | ["inf", mm, r, c, a] =>
+    match modeChar mm, parseDim 1 4 r, parseDim 1 4 c, parseInts a with
+    | some mm, some r, some c, some a =>
+      if matShape r c && (mm = 's' || (mm = 'b' && matViews r c)) then
+        match mkMat mm r c a with
+        | some ma => toString ma.infinityNorm
+        | none => "bad-op"
+      else "bad-op"
+    | _, _, _, _ => "bad-op"
+  | "mem" :: _ => memHandle toks
+  | "mems" :: _ => memHandle toks
   | ["vec", kind, lr, n, a, b, k, i] =>
     match modeChars lr, parseDim 1 4 n, parseInts a, parseInts b, parseScalar k, i.toNat? with
     | some (ml, mr), some n, some a, some b, some k, some i =>
@@ -328,6 +685,48 @@ def handle (toks : List String) : String :=
     | none => "bad-op"
   | ["det0"] => toString (Mat.det (⟨fromArray #v[]⟩ : Mat 0 0))
   | _ => "bad-op"
+
+/-! ## digests of systematic families of the lines above (`refine` in props/c14.py turns a differing digest into the single line) -/
+
+def enumTrits (n idx : Nat) : List Int := (List.range n).map fun j => Int.ofNat ((idx / 3 ^ j) % 3) - 1
+
+def digestOf (lines : List (List String)) : String :=
+  let r := lines.foldl (fun (acc : Option UInt64) toks =>
+    match acc with
+    | none => none
+    | some h => let s := handle1 toks; if s = "bad-op" then none else some (fnv h s)) (some fnvInit)
+  match r with
+  | some h => "D " ++ hex64 h
+  | none => "bad-op"
+
+/-- * `vecs K LR n ia` — the `vec` lines of `a` = vector number `ia` over {-1,0,1,2}^n with **every** `b` ∈ {-1,0,1,2}^n
+      (`k = (ia + ib) % 7 - 3`, `i = (ia + 2 ib) % (n + 2)`)
+    * `crs LR ia`      — the `cross` lines of `a` = vector number `ia` with every `b` ∈ {-1,0,1,2}^3
+    * `sqs M a`        — the `sq` lines of the 243 3×3 matrices over {-1,0,1} whose last four entries are number `a` < 81
+    * `mvs MM VM a`    — the `mv` lines of the 2×3 matrix number `a` < 4096 over {-1,0,1,2} with every `v` ∈ {-1,0,1,2}^3 -/
+def handle (toks : List String) : String :=
+  match toks with
+  | ["vecs", kind, lr, n, ia] =>
+    match parseDim 1 4 n, ia.toNat? with
+    | some n, some ia =>
+      if ia < 4 ^ n then
+        digestOf ((List.range (4 ^ n)).map fun ib =>
+          ["vec", kind, lr, toString n, showL (enumA n ia), showL (enumA n ib), toString ((Int.ofNat ((ia + ib) % 7)) - 3), toString ((ia + 2 * ib) % (n + 2))])
+      else "bad-op"
+    | _, _ => "bad-op"
+  | ["crs", lr, ia] =>
+    match parseDim 0 63 ia with
+    | some ia => digestOf ((List.range 64).map fun ib => ["cross", lr, showL (enumA 3 ia), showL (enumA 3 ib)])
+    | none => "bad-op"
+  | ["sqs", mm, a] =>
+    match parseDim 0 80 a with
+    | some a => digestOf ((List.range 243).map fun lo => ["sq", mm, "3", showL (enumTrits 5 lo ++ enumTrits 4 a)])
+    | none => "bad-op"
+  | ["mvs", mm, vm, a] =>
+    match parseDim 0 4095 a with
+    | some a => digestOf ((List.range 64).map fun iv => ["mv", mm, vm, "2", "3", showL (enumA 6 a), showL (enumA 3 iv)])
+    | none => "bad-op"
+  | _ => handle1 toks
 
 def main : IO Unit := Proto.run handle
 
